@@ -9,6 +9,7 @@ The C04 init post-condition and the C11 to_etree post-condition ride along.
 import io
 import random
 
+from vf.core import hostile_history
 from vf.gen import instances
 from vf.monitors import online
 from vf.oracles import modelwalk, ref_decl
@@ -127,6 +128,13 @@ def one_instance(ctx, name, cls, profile, seedstr, forms):
     except instances.GenGiveUp:
         ctx.count("gen_giveup")
         return
+    if ctx.replay_case is not None:
+        hostile_history.replay_history(ctx.replay_case["case"].get("broken_before"))
+    else:
+        if ctx.rng.random() < 0.06:
+            hostile_history.disturb(ctx.rng)  # a broken file right before (not judged): the round trip must not notice
+            ctx.count("after_broken_document")
+        case["broken_before"] = list(hostile_history.HISTORY[-40:])
     s0 = modelwalk.snap(inst)
     exact0 = modelwalk.snap(inst, exact=True)
     nodes = modelwalk.count_nodes(s0)
